@@ -70,6 +70,18 @@ func oracleC01() *Result {
 	for _, b := range genBytesExhaustive(k) {
 		add(b, "g-bytes")
 	}
+	// every byte value after the bytes that start an interpolation, in every string-like mode
+	strPrefixes := []string{"<?php \"", "<?php `", "<?php <<<A\n", "<?php <<<\"A\"\n", "<?php \"$a", "<?php \"{$a", "<?php <<<A\nx $a", "<?php $a->", "<?php \"$a[", "<?php '", "<?php <<<'A'\n", "<?php ", "a"}
+	for _, p := range strPrefixes {
+		for _, s := range []string{"$", "{$", "${", "\\", "$a->", "$a[", "-", "<", "?", "{", "$$"} {
+			for c := 0; c < 256; c++ {
+				add(append([]byte(p+s), byte(c)), "mode-bytes")
+				if opts.Tier == "thorough" || c >= 0x7e || c < 0x21 {
+					add(append(append([]byte(p+s), byte(c)), "\nA;\n\""...), "mode-bytes")
+				}
+			}
+		}
+	}
 	corpus := loadCorpus()
 	for _, s := range corpus {
 		add(s.Src, "corpus")
